@@ -6,7 +6,7 @@ rm -rf "$D/verif"; mkdir -p "$D"
 if [ -d "$D/repo" ]; then git -C /repo worktree remove --force "$D/repo" || rm -rf "$D/repo"; fi
 git -C /repo worktree prune
 git -C /repo worktree add --detach "$D/repo" HEAD >/dev/null
-rsync -a --exclude harness/target --exclude tmp --exclude .git --exclude replays /verif/ "$D/verif/"
+rsync -a --exclude harness/target --exclude harness/target-plain --exclude tmp --exclude .git --exclude replays /verif/ "$D/verif/"
 sed -i "s#path = \"/repo\"#path = \"$D/repo\"#" "$D/verif/harness/Cargo.toml"
 mkdir -p "$D/verif/tmp"
 echo "$D"
